@@ -152,6 +152,11 @@ def build(program):
                 own = _attrs(ta.get('_own'))
                 return b.simples[ta['_from']](**own) if own else b.simples[ta['_from']]
             cls = prims[t[1]]
+            if ta.get('_steps'):
+                # an anonymous customisation made in several steps: T(**step1)(**step2)...; t[2] holds the merged facets
+                for st in ta['_steps']:
+                    cls = cls(**_attrs(st))
+                return cls
             a = _attrs(t[2] if len(t) > 2 else None)
             return cls(**a) if a else cls
         if k == 'c':
